@@ -90,6 +90,31 @@ func c01(p *core.Program, r *core.Report) {
 	r.Rule(r1, "in package geom every append/copy that moves the ordinates of a Coord-typed value into a []float64 that is not a fresh per-coordinate copy is unreachable once the pass edge of `len(c) != stride` on that same value is deleted, and the fail edge returns ErrStrideMismatch; all 7 SetCoords methods reach that site", 8)
 	nsinks := 0
 	var sinkFns []*ssa.Function
+	// a []float64 parameter that some call site of the package hands a Coord-typed value carries a caller's
+	// coordinate just as a Coord does (geom0.setCoords(coords0 []float64) is called with a Coord)
+	coordParams := map[*ssa.Parameter]bool{}
+	for _, fn := range geomFns {
+		for _, c := range eng.Calls(fn) {
+			callee := c.Common().StaticCallee()
+			if callee == nil || core.FnPkgPath(callee) != mod {
+				continue
+			}
+			args := c.Common().Args
+			for i, a := range args {
+				if i < len(callee.Params) && isCoordType(eng.StripConv(a).Type()) && !isCoordType(callee.Params[i].Type()) && isFloatSlice(callee.Params[i].Type()) {
+					coordParams[callee.Params[i]] = true
+				}
+			}
+		}
+	}
+	carriesCoord := func(v ssa.Value) bool {
+		v = eng.StripConv(v)
+		if isCoordType(v.Type()) {
+			return true
+		}
+		prm, ok := v.(*ssa.Parameter)
+		return ok && coordParams[prm]
+	}
 	for _, fn := range geomFns {
 		for _, c := range eng.Calls(fn) {
 			bn := eng.BuiltinName(c)
@@ -97,7 +122,7 @@ func c01(p *core.Program, r *core.Report) {
 				continue
 			}
 			args := c.Common().Args
-			if len(args) < 2 || !isCoordType(eng.StripConv(args[1]).Type()) || !isFloatSlice(args[0].Type()) {
+			if len(args) < 2 || !carriesCoord(args[1]) || !isFloatSlice(args[0].Type()) {
 				continue
 			}
 			// copying OUT of the geometry (dst is the Coord) is not a store of caller data
